@@ -28,8 +28,12 @@ func verif_fresh(p any) bool
 func verif_istype[T any](x any) bool { _, ok := x.(T); return ok }
 func verif_fst[A, B any](a A, b B) A { return a }
 func verif_snd[A, B any](a A, b B) B { return b }
+func verif_fst3[A, B, C any](a A, b B, c C) A { return a }
+func verif_snd3[A, B, C any](a A, b B, c C) B { return b }
+func verif_thd3[A, B, C any](a A, b B, c C) C { return c }
 func verif_ptr[T any](n int) *T { return nil }
 func verif_le64(b []byte) uint64
+func verif_haskey(m, k any) bool
 func verif_same(a, b any) bool
 func verif_raw(a any) int
 func verif_calls(name string) int
